@@ -34,3 +34,10 @@ Check (C37_example_two_nodes :
   rcnt (rs_run ex_ops rstore0) = rcnt (rs_run ops2 rstore0) /\
   d_log (r_disk (rs_run ex_ops rstore0)) <> d_log (r_disk (rs_run ops2 rstore0))).
 Print Assumptions C37_example_two_nodes.
+Check (C37_restart_keeps_promises_partial :
+  forall k restarts,
+    ~ Known_C37_mem_store_restart k restarts -> (0 < restarts)%nat -> restart_keeps_promises k).
+Print Assumptions C37_restart_keeps_promises_partial.
+Check (C37_mem_store_restart_refuted :
+  exists k restarts, Known_C37_mem_store_restart k restarts /\ ~ restart_keeps_promises k).
+Print Assumptions C37_mem_store_restart_refuted.
